@@ -20,7 +20,7 @@ ASSUMPTIONS = ['Python format() is the text reference; a bare width left-justifi
                'SGR group model for the displayed result of format()', 'specs with a zero-led width (e.g. 05) are grey',
                'ESC in the base text is grey']
 MIN_EVAL = 400
-CASES = {'quick': 80, 'thorough': 1800}
+CASES = {'quick': 800, 'thorough': 10800}
 WEIGHTS = {'apply': 12, 'pad': 10, 'format': 8, 'to_str': 2, 'getitem': 2, 'add': 2, 'remove': 2, 'query': 0.1,
            'find_settings': 0.1, 'settings_at': 0.1}
 
